@@ -139,6 +139,10 @@ func c20EncodeBlock(vox []uint64, S int) ([]byte, []c20Field, []int) {
 	}
 	bounds = append(bounds, b.Len())
 	for _, s := range sbs {
+		if len(s.vals) > 0 {
+			// the bit-packed voxel values of one sub-block: each is an index into the sub-block's label list
+			fields = append(fields, c20Field{Name: "sbValues", Off: b.Len(), Len: len(s.vals), Kind: "packed", N: uint64(len(s.idx))})
+		}
 		b.Write(s.vals)
 		bounds = append(bounds, b.Len())
 	}
